@@ -531,7 +531,10 @@ class World(object):
             if layer.get("tap"):
                 ex = TapExecutor(self, "%s.tap%d" % (name, i), ex)
                 self.exs[ex.name] = [ex]
-            ex = self.add_layer(ex, layer, "%s.L%d" % (name, i))
+            if spec.get("methods"):
+                ex = self.add_layer_method(ex, layer, "%s.L%d" % (name, i))
+            else:
+                ex = self.add_layer(ex, layer, "%s.L%d" % (name, i))
             levels.append(ex)
         if spec.get("toptap"):
             ex = TapExecutor(self, "%s.top" % name, ex)
@@ -568,6 +571,44 @@ class World(object):
             return Executors.with_cancel_on_shutdown(ex, **kw)
         if k == "asyncio":
             return Executors.with_asyncio(ex, **kw)
+        raise ValueError(layer)
+
+    def make_callable(self, name, spec):
+        """spec = {"kind": "fn"|"partial"|"obj", "script": [...]}"""
+        import functools
+        base = Fn(self, name + ".fn", spec.get("script", [["echo"]]))
+        self.fns[base.name] = base
+        kind = spec.get("kind", "fn")
+        if kind == "fn":
+            return base
+        if kind == "partial":
+            return functools.partial(base, "bound-arg", pk="pv")
+        if kind == "obj":
+            return CallableObj(base)
+        raise ValueError(spec)
+
+    def add_layer_method(self, target, layer, lname):
+        """Apply a layer through the with_* METHOD of an executor or bound callable (name propagation path)."""
+        k = layer["kind"]
+        kw = {}
+        if layer.get("name"):
+            kw["name"] = layer["name"]
+        if k == "map":
+            return target.with_map(self.fn(lname + ".fn", layer.get("fn")), error_fn=self.fn(lname + ".err", layer.get("err")), **kw)
+        if k == "flat_map":
+            return target.with_flat_map(self.fn(lname + ".fn", layer.get("fn")), error_fn=self.fn(lname + ".err", layer.get("err")), **kw)
+        if k == "retry":
+            return target.with_retry(retry_policy=self.policy(lname + ".policy", layer.get("policy")), **kw)
+        if k == "poll":
+            pf = PollFn(self, lname + ".poll", layer.get("per_sub"), layer.get("calls"))
+            self.fns[pf.name] = pf
+            return target.with_poll(pf, default_interval=layer.get("interval", 1.0), **kw)
+        if k == "throttle":
+            return target.with_throttle(count=layer.get("count"), **kw)
+        if k == "timeout":
+            return target.with_timeout(layer["t"], **kw)
+        if k == "cos":
+            return target.with_cancel_on_shutdown(**kw)
         raise ValueError(layer)
 
     def policy(self, name, spec):
@@ -840,6 +881,37 @@ class World(object):
             return None
         if k == "now":
             return vsched.v_monotonic()
+        if k == "bindchain":
+            # ["bindchain", name, stack_before, callable_spec, layers_after, flat]
+            # executor(before).bind(fn) [or flat_bind], then with_* layers applied to the bound callable
+            ex = self.build(op[1] + ".pre", op[2])
+            fn = self.make_callable(op[1], op[3])
+            bound = ex.flat_bind(fn) if (len(op) > 5 and op[5]) else ex.bind(fn)
+            for i, layer in enumerate(op[4]):
+                bound = self.add_layer_method(bound, layer, "%s.A%d" % (op[1], i))
+            self.bound = getattr(self, "bound", {})
+            self.bound[op[1]] = bound
+            return None
+        if k == "execchain":
+            # ["execchain", name, stack_before, layers_after, flat]: the same chain applied to the executor itself
+            ex = self.build(op[1] + ".pre", op[2])
+            if len(op) > 4 and op[4]:
+                ex = ex.with_flat_map(lambda f: f)
+            for i, layer in enumerate(op[3]):
+                ex = self.add_layer_method(ex, layer, "%s.A%d" % (op[1], i))
+            self.exs[op[1]] = [ex]
+            return None
+        if k == "bcall":
+            # ["bcall", name, futname, args, kwargs]
+            f = self.bound[op[1]](*_thaw(op[3]), **dict(op[4] if len(op) > 4 else {}))
+            self.futs[op[2]] = f
+            return "called"
+        if k == "xsubmit":
+            # ["xsubmit", exname, futname, callable_spec, args, kwargs]: submit the same callable to the executor chain
+            fn = self.make_callable(op[1], op[3])
+            f = self.executor(op[1]).submit(fn, *_thaw(op[4]), **dict(op[5] if len(op) > 5 else {}))
+            self.futs[op[2]] = f
+            return "submitted"
         if k == "threads":
             # library-created threads that are still alive right now
             return sorted(t.name for t in self.s.threads if not t.client and not t.done)
@@ -872,6 +944,20 @@ class World(object):
         self.rec("settled")
         self.run_ops(prog.get("final", []))
         self.rec("program_end")
+
+
+class CallableObj(object):
+    """A callable object that keeps private state under names a careless wrapper might clobber."""
+
+    def __init__(self, fn):
+        self._fn = fn
+        self._executor = "not-an-executor"
+        self._name = "callable-own-name"
+        self.calls = 0
+
+    def __call__(self, *args, **kwargs):
+        self.calls += 1
+        return self._fn(*args, **kwargs)
 
 
 class CallbackRec(object):
